@@ -331,7 +331,7 @@ static void solve_run(const Case &c, Result &r, const char *prop) {
     if (cfg.entry != 0 && cfg.itlim == 0) cfg.itlim = std::max(2000, 50 * (m.n() + m.m()));   // exact Dantzig pricing may cycle
     if (cfg.pprice != 0 || cfg.dprice != 0) nondefault_sticky = true;
     // a non-default pricing rule may cycle in the mpf stages as well (Kuhn/Beale under Dantzig): cap the work
-    if (prop_s == "C04" && cfg.entry == 0 && nondefault_sticky && cfg.itlim == 0) cfg.itlim = std::max(2000, 50 * (m.n() + m.m()));
+    if (prop_s == "C04" && cfg.entry == 0 && nondefault_sticky && cfg.itlim == 0) cfg.itlim = std::max(300, 20 * (m.n() + m.m()));   // x 13 stages, mpf iterations are slow
     if (cfg.itlim != 0) nondefault_sticky = true;
     SolveOutcome so;
     QSbasis *B = nullptr;
